@@ -346,8 +346,8 @@ func (r *Run) RacePass(what string) {
 	case strings.Contains(stderr, "panic:"):
 		r.Violation("crash-free-running", "the free-running pass panicked: "+first(stderr[strings.Index(stderr, "panic:"):], 12), map[string]any{"report": first(stderr, 60)})
 	case code == "124" || code == "137":
-		// the pass takes seconds; 15 minutes without finishing is a hang of the code under test (deadlock between real goroutines)
-		r.Violation("free-running-pass-hangs", "the free-running pass did not finish within 15 minutes "+what, map[string]any{"stderr": first(stderr, 40)})
+		// the pass takes seconds; 5 minutes without finishing is a hang of the code under test (deadlock between real goroutines)
+		r.Violation("free-running-pass-hangs", "the free-running pass did not finish within 5 minutes "+what, map[string]any{"stderr": first(stderr, 40)})
 	case res == nil || (code != "0" && code != "66"):
 		fmt.Fprintln(os.Stderr, stderr)
 		Fatal("race pass failed (exit %s)", code)
